@@ -14,7 +14,7 @@
 (***************************************************************************)
 EXTENDS TaskFlush, Json, IOUtils, TLCExt
 
-VARIABLES tid, l, sopen, fopen
+VARIABLES tid, l, sopen, fopen, cbPending   \* cbPending[w]: JobFinish seen on w, its CallbackEnd not yet
 
 TraceLog == JsonDeserialize(IOEnv.TRACE_FILE)
 T == TraceLog[tid]
@@ -28,18 +28,19 @@ TraceInit ==
     /\ l = 2
     /\ sopen = [s \in Submitters |-> "closed"]
     /\ fopen = FALSE
+    /\ cbPending = [w \in Workers |-> FALSE]
     /\ Init
 
 TrSubmitStart ==
     /\ Live /\ E.ev = "SubmitStart" /\ E.s \in Submitters /\ sopen[E.s] = "closed"
     /\ sopen' = [sopen EXCEPT ![E.s] = "fresh"]
-    /\ Consume /\ UNCHANGED <<vars, fopen>>
+    /\ Consume /\ UNCHANGED <<vars, fopen, cbPending>>
 
 TrSubmitInternal ==
     /\ \E s \in Submitters :
          \/ sopen[s] = "fresh" /\ CheckOpen(s) /\ sopen' = [sopen EXCEPT ![s] = "inflight"]
          \/ sopen[s] = "inflight" /\ (NextId(s) \/ PoolSubmit(s) \/ Track(s) \/ AddCallback(s)) /\ UNCHANGED sopen
-    /\ UNCHANGED <<tid, l, fopen>>
+    /\ UNCHANGED <<tid, l, fopen, cbPending>>
 
 TrSubmitEnd ==
     /\ Live /\ E.ev = "SubmitEnd" /\ E.s \in Submitters
@@ -47,39 +48,42 @@ TrSubmitEnd ==
     /\ sres[E.s] = E.res
     /\ E.res = "accepted" => sid[E.s] = E.id
     /\ sopen' = [sopen EXCEPT ![E.s] = "closed"]
-    /\ Consume /\ UNCHANGED <<vars, fopen>>
+    /\ Consume /\ UNCHANGED <<vars, fopen, cbPending>>
 
-TrJobStart == Live /\ E.ev = "JobStart" /\ E.w \in Workers /\ Start(E.w, E.j) /\ Consume /\ UNCHANGED <<sopen, fopen>>
+TrJobStart == Live /\ E.ev = "JobStart" /\ E.w \in Workers /\ ~cbPending[E.w] /\ Start(E.w, E.j) /\ Consume
+              /\ UNCHANGED <<sopen, fopen, cbPending>>
 
 TrJobFinish ==
     /\ Live /\ E.ev = "JobFinish" /\ E.w \in Workers /\ wjob[E.w] = E.j
-    /\ Finish(E.w, E.res) /\ Consume /\ UNCHANGED <<sopen, fopen>>
+    /\ Finish(E.w, E.res) /\ Consume /\ cbPending' = [cbPending EXCEPT ![E.w] = TRUE] /\ UNCHANGED <<sopen, fopen>>
 
-TrWorkerInternal == (\E w \in Workers : WorkerCallback(w)) /\ UNCHANGED <<tid, l, sopen, fopen>>
+TrWorkerInternal == (\E w \in Workers : WorkerCallback(w)) /\ UNCHANGED <<tid, l, sopen, fopen, cbPending>>
 
 TrCallbackEnd ==
-    /\ Live /\ E.ev = "CallbackEnd" /\ E.w \in Workers /\ wjob[E.w] = NoJob
+    /\ Live /\ E.ev = "CallbackEnd" /\ E.w \in Workers /\ wjob[E.w] = NoJob /\ cbPending[E.w]
+    /\ cbPending' = [cbPending EXCEPT ![E.w] = FALSE]
     /\ Consume /\ UNCHANGED <<vars, sopen, fopen>>
 
-TrFlushStart == Live /\ E.ev = "FlushStart" /\ ~fopen /\ fpc = "idle" /\ fopen' = TRUE /\ Consume /\ UNCHANGED <<vars, sopen>>
+TrFlushStart == Live /\ E.ev = "FlushStart" /\ ~fopen /\ fpc = "idle" /\ fopen' = TRUE /\ Consume
+                /\ UNCHANGED <<vars, sopen, cbPending>>
 
 TrFlushInternal ==
     /\ fopen
     /\ FlushClose \/ FlushSnapshot \/ (\E k \in Jobs : FlushWait(k)) \/ FlushReturn
-    /\ UNCHANGED <<tid, l, sopen, fopen>>
+    /\ UNCHANGED <<tid, l, sopen, fopen, cbPending>>
 
 TrFlushEnd ==
     /\ Live /\ E.ev = "FlushEnd" /\ fopen /\ fpc = E.res
-    /\ fopen' = FALSE /\ Consume /\ UNCHANGED <<vars, sopen>>
+    /\ fopen' = FALSE /\ Consume /\ UNCHANGED <<vars, sopen, cbPending>>
 
 SeqToSet(q) == {q[i] : i \in 1..Len(q)}
 
 TrQuiet ==
     /\ Live /\ E.ev = "Quiet"
     /\ \A s \in Submitters : sopen[s] = "closed"
-    /\ ~fopen /\ \A w \in Workers : wjob[w] = NoJob
+    /\ ~fopen /\ \A w \in Workers : wjob[w] = NoJob /\ ~cbPending[w]
     /\ open = E.open /\ pending = SeqToSet(E.pending)
-    /\ Consume /\ UNCHANGED <<vars, sopen, fopen>>
+    /\ Consume /\ UNCHANGED <<vars, sopen, fopen, cbPending>>
 
 TraceNext ==
     \/ TrSubmitStart \/ TrSubmitInternal \/ TrSubmitEnd \/ TrJobStart \/ TrJobFinish \/ TrWorkerInternal
